@@ -45,6 +45,11 @@ def cli_env(guard: bool = False) -> dict:
     return e
 
 
+# content of an output file "left behind by an earlier invocation" where no valid earlier output is used: LONGER than anything
+# the tool writes in the scenarios that use it, so that a writer which does not truncate leaves a tail of it behind
+STALE = b"left behind by an earlier invocation\n" * 12000
+
+
 def through_link(path, on: bool):
     """When `on`: the file is renamed to t_<name> and `path` becomes a symbolic link to it - an input named through a link is the
     file the link points to (size, content), for every command that reads files."""
